@@ -353,6 +353,23 @@ static void dump_bb_trace(const vh::Recorder & rec, const vh::PlanSource & src)
 static FILE * ev_out = nullptr;
 static FILE * gb_out = nullptr;
 static FILE * tr_out = nullptr;
+// table subscripts noted by the code ("index" notes: base (0/1), subscript, table size): per (base, size) the smallest and the
+// largest subscript seen in the whole run, written at exit for spec/Index.tla
+static FILE * ix_out = nullptr;
+struct IxRange { long lo = 0, hi = 0, count = 0; };
+static std::map<std::pair<int, long>, IxRange> ix_seen;
+static void collect_index_notes(const vh::Recorder & rec)
+{
+  if (!ix_out) return;
+  for (const auto & e : rec.evs) {
+    if (e.kind != 2 || e.name != "index" || e.a.size() < 3) continue;
+    auto & r = ix_seen[{(int)e.a[0], (long)e.a[2]}];
+    long i   = (long)e.a[1];
+    if (r.count == 0 || i < r.lo) r.lo = i;
+    if (r.count == 0 || i > r.hi) r.hi = i;
+    r.count++;
+  }
+}
 
 // Projection for spec/TraceTransition.tla: the particles emitted inside every nucltrans* / pair / PbAtShell scope (eV)
 static void dump_tr_trace(const vh::Recorder & rec)
@@ -459,6 +476,7 @@ int main(int argc, char ** argv)
     if (std::string(argv[i]) == "--ev-trace" && i + 1 < argc) ev_out = std::fopen(argv[++i], "w");
     if (std::string(argv[i]) == "--gb-trace" && i + 1 < argc) gb_out = std::fopen(argv[++i], "w");
     if (std::string(argv[i]) == "--tr-trace" && i + 1 < argc) tr_out = std::fopen(argv[++i], "w");
+    if (std::string(argv[i]) == "--ix-trace" && i + 1 < argc) ix_out = std::fopen(argv[++i], "w");
   }
   std::set<std::string> ref_bkg_inited, ref_bkg_rejected;
   std::string line;
@@ -568,6 +586,7 @@ int main(int argc, char ** argv)
       dump_trace(id, name, rec, src, ev);
       dump_sch_trace(rec, src);
       dump_tr_trace(rec);
+      collect_index_notes(rec);
       if (r.cls != "port-exception" && r.cls != "port-error") dump_gb_trace(rec, ev, "bkg", name);
       if (r.cls != "port-exception" && r.cls != "port-error") vh::dump_ev_trace(ev_out, id, ev, name, false, 0, 0, 0, 0, false, 0);
       emit(id, r);
@@ -736,6 +755,7 @@ int main(int argc, char ** argv)
         dump_trace(id + ":" + std::to_string(iev), name, rec, src, ev);
         dump_sch_trace(rec, src);
         dump_tr_trace(rec);
+        collect_index_notes(rec);
         dump_bb_trace(rec, src);
         if (r.cls != "port-exception") {
           int steps = 0;
@@ -753,5 +773,11 @@ int main(int argc, char ** argv)
   if (ev_out) std::fclose(ev_out);
   if (gb_out) std::fclose(gb_out);
   if (tr_out) std::fclose(tr_out);
+  if (ix_out) {
+    for (const auto & kv : ix_seen)
+      std::fprintf(ix_out, "{\"e\":\"Idx\",\"base\":%d,\"n\":%ld,\"lo\":%ld,\"hi\":%ld,\"count\":%ld}\n", kv.first.first, kv.first.second, kv.second.lo,
+                   kv.second.hi, kv.second.count);
+    std::fclose(ix_out);
+  }
   return 0;
 }
